@@ -46,6 +46,7 @@ FUZZERS = {
     "list_while": ("fuzz.list_while(fuzz.int_between(0, 50), 64, 12)", "list_int", [1, 3, 6, 40, 120], "dep"),
     "list_lenient": ("fuzz.list_of(fuzz.byte_or_zero(), 6)", "list_int", [1, 3, 100, 400], "dep lenient"),
     "list_such_that": ("fuzz.list_of(fuzz.such_that(fuzz.byte(), fn(b) { b % 2 == 0 }, 60), 6)", "list_int", [1, 3, 100, 400], "dep none_on_replay"),
+    "list_long": ("fuzz.list_of(fuzz.int_between(0, 1000), 20)", "list_int", [1, 12, 1000, 5000], "dep"),
     "list_const": ("fuzz.constant([1, 1, 2])", "list_int", [3, 4, 5], "const"),
     "list_crashing": ("fuzz.list_of(fuzz.crashing(240), 5)", "list_int", [2, 4, 200], "dep err"),
     # pairs, bool, option
